@@ -11,7 +11,7 @@ LEVEL_TEXT = (
     "produces for a transaction - every program, expression, input block, context and fuel - holds a value placeholder only under "
     "the lower-cased name of a parameter of that transaction, a party or an environment key, so every name the independent walk "
     "of C06 finds and every name find_params reports on the lowered IR is a key the interface lists "
-    "(C17_lowered_requires_declared, C17_lowered_keys_listed, C17_reported_params_listed), names used only inside a chain-specific directive included (C17_lowered_full_requires_declared); conversely every parameter an integer expression mentions is required by what it lowers to, under the interface key of the name as declared (C17_used_is_required). Per generated program (identifiers in lower, upper, title and mixed case, unused "
+    "(C17_lowered_requires_declared, C17_lowered_keys_listed, C17_reported_params_listed), names used only inside a chain-specific directive included (C17_lowered_full_requires_declared); the from, min_amount and ref of an input block each reach its query whichever of them are present, so a parameter used only in the min_amount of a ref-pinned input is required (C17_input_fields_lowered, C17_min_amount_param_required); conversely every parameter an integer expression mentions is required by what it lowers to, under the interface key of the name as declared (C17_used_is_required). Per generated program (identifiers in lower, upper, title and mixed case, unused "
     "parameters, environment values, colliding names) the real tx3c binary built from the working tree emits the TII "
     "file; the embedded IR is decoded by the real from_bytes and compared with lowering; find_params of the decoded IR "
     "must be within the declared keys and every declared name the body uses must be required under the declared spelling."
@@ -21,11 +21,12 @@ LEVEL_NOTE = (
     "so the lower-casing rule is exercised); the converse direction (used, hence required) is a theorem for integer expressions and observed per case elsewhere (the single-use parameter sweep). tx3c is run as a process; its JSON is parsed by the harness."
 )
 PROP = "C17"
-TARGETS = ["Tx3Proofs.C17", "Tx3Proofs.C17Lower", "Tx3Proofs.C17Used", "Tx3Proofs.C06LowerAdhoc"]
+TARGETS = ["Tx3Proofs.C17", "Tx3Proofs.C17Lower", "Tx3Proofs.C17Used", "Tx3Proofs.C06LowerAdhoc", "Tx3Proofs.C17Input"]
 THEOREMS = ["Tx3.Tii.C17_same_spelling", "Tx3.Tii.C17_required_are_declared", "Tx3.Tii.dupNames_nil_iff", "Tx3.Tii.C17_no_collision",
             "Tx3.Lang.lower_decl", "Tx3.Lang.resolve_names", "Tx3.Lang.C17_lowered_requires_declared",
             "Tx3.Lang.C17_lowered_keys_listed", "Tx3.Lang.C17_reported_params_listed",
-    "Tx3.Lang.C17_used_is_required", "Tx3.Lang.C17_lowered_full_requires_declared"]
+    "Tx3.Lang.C17_used_is_required", "Tx3.Lang.C17_lowered_full_requires_declared",
+    "Tx3.Lang.C17_input_fields_lowered", "Tx3.Lang.C17_min_amount_param_required"]
 RULE = (
     "cases = programs with 2 parties, 2-4 transaction parameters (one unused in half of them), optionally an env block "
     "with two values used in the body, identifiers independently drawn in lower / UPPER / Title / MiXeD case; every "
